@@ -18,6 +18,23 @@ pub fn str_contains_char(s: &str, c: char) -> (r: bool)
     s.contains(c)
 }
 
+/// R12: `$s.starts_with($c)` / `$s.ends_with($c)` for `$s: &str`, `$c: char`
+/// (core::str, char pattern): the first / last char of the string is `$c`.
+/// Not used by the repository's code today; offered so that an edit of the
+/// delimiter test in `BearerToken::new` still composes (and fails its labels).
+#[verifier::external_body]
+pub fn str_starts_with_char(s: &str, c: char) -> (r: bool)
+    ensures r == (s@.len() > 0 && s@[0] == c),
+{
+    s.starts_with(c)
+}
+#[verifier::external_body]
+pub fn str_ends_with_char(s: &str, c: char) -> (r: bool)
+    ensures r == (s@.len() > 0 && s@[s@.len() - 1] == c),
+{
+    s.ends_with(c)
+}
+
 /// std String::as_bytes: the UTF-8 encoding of the characters (`utf8` is the
 /// uninterpreted encoding function of prelude/base.rs).
 pub assume_specification [std::string::String::as_bytes] (s: &std::string::String) -> (r: &[u8])
@@ -61,10 +78,78 @@ impl<T> Clone for HashSet<T> {
 
 /// R12: `$xs.iter().any(|$a| $a == $y)` on a HashSet (std meaning: membership;
 /// `==` on AccountId is the derived structural equality).
+/// (No longer used by units/auth.vrs: the closure is now kept as extracted
+/// code and handed to `iter_any` below.)
 #[verifier::external_body]
 pub fn vcontains<T>(xs: &HashSet<T>, y: &T) -> (r: bool)
     ensures r == xs@.contains(*y),
 { unimplemented!() }
+
+/// what a predicate closure answers on an element (named so that the
+/// quantifiers below have a trigger)
+pub open spec fn hs_pred<T, F: Fn(&T) -> bool>(f: F, x: T, b: bool) -> bool {
+    f.ensures((&x,), b)
+}
+
+/// The commonly used read-only API of std::collections::HashSet over the set
+/// model (std documentation: `contains` = membership, `len` = number of
+/// elements, `is_empty` = `len() == 0`), and the two iterator idioms
+/// `$xs.iter().any($p)` / `$xs.iter().all($p)` (core::iter::Iterator::any /
+/// all over `hash_set::Iter`, which yields every element exactly once): `any`
+/// answers true iff `$p` answered true on some element, `all` iff `$p` answered
+/// true on every element.  `$p` stays the repository's closure; its
+/// specification is written in the unit and Verus checks the real body against it.
+impl<T> HashSet<T> {
+    #[verifier::external_body]
+    pub fn contains(&self, y: &T) -> (r: bool)
+        ensures r == self@.contains(*y),
+    { unimplemented!() }
+
+    #[verifier::external_body]
+    pub fn len(&self) -> (r: usize)
+        ensures r == self@.len(),
+    { unimplemented!() }
+
+    #[verifier::external_body]
+    pub fn is_empty(&self) -> (r: bool)
+        ensures r == (forall|x: T| !self@.contains(x)),
+    { unimplemented!() }
+
+    /// R12: `$xs.iter().any($p)`
+    #[verifier::external_body]
+    pub fn iter_any<F: Fn(&T) -> bool>(&self, f: F) -> (r: bool)
+        requires
+            forall|x: &T| #[trigger] f.requires((x,)),
+        ensures
+            r ==> exists|x: T| #[trigger] self@.contains(x) && hs_pred(f, x, true),
+            !r ==> forall|x: T| #[trigger] self@.contains(x) ==> hs_pred(f, x, false),
+    { unimplemented!() }
+
+    /// R12: `$xs.iter().all($p)`
+    #[verifier::external_body]
+    pub fn iter_all<F: Fn(&T) -> bool>(&self, f: F) -> (r: bool)
+        requires
+            forall|x: &T| #[trigger] f.requires((x,)),
+        ensures
+            r ==> forall|x: T| #[trigger] self@.contains(x) ==> hs_pred(f, x, true),
+            !r ==> exists|x: T| #[trigger] self@.contains(x) && hs_pred(f, x, false),
+    { unimplemented!() }
+}
+
+/// `#[derive(PartialEq, Eq)]` on `AccountId([u8; 20])` (crates/core/src/account.rs):
+/// byte-wise, i.e. structural equality.  Needed now that the `|a| a == account_id`
+/// closures of `is_allowed_access` are verified code.
+impl PartialEq for AccountId {
+    #[verifier::external_body]
+    fn eq(&self, other: &Self) -> (r: bool)
+        ensures r == (*self == *other),
+    { self.0 == other.0 }
+}
+impl Eq for AccountId {}
+impl vstd::std_specs::cmp::PartialEqSpecImpl for AccountId {
+    open spec fn obeys_eq_spec() -> bool { true }
+    open spec fn eq_spec(&self, other: &AccountId) -> bool { *self == *other }
+}
 
 /// std::collections::HashMap<K, V> — only `get`.
 #[verifier::external_body]
@@ -83,6 +168,23 @@ impl<K, V> HashMap<K, V> {
         ensures
             r.is_some() <==> self@.contains_key(*k),
             r.is_some() ==> *r.unwrap() == self@[*k],
+    { unimplemented!() }
+
+    /// std HashMap::contains_key: `self.get(k).is_some()`
+    #[verifier::external_body]
+    pub fn contains_key(&self, k: &K) -> (r: bool)
+        ensures r == self@.contains_key(*k),
+    { unimplemented!() }
+
+    /// std HashMap::len / is_empty: number of entries
+    #[verifier::external_body]
+    pub fn len(&self) -> (r: usize)
+        ensures r == self@.dom().len(),
+    { unimplemented!() }
+
+    #[verifier::external_body]
+    pub fn is_empty(&self) -> (r: bool)
+        ensures r == (forall|k: K| !self@.contains_key(k)),
     { unimplemented!() }
 }
 
@@ -155,6 +257,11 @@ impl Signature {
     pub fn from_bytes(bytes: &[u8; 64]) -> (r: Signature)
         ensures r@ == bytes@,
     { Signature { bytes: *bytes } }
+
+    /// ed25519-2.2.3 `Signature::to_bytes`: "Return the inner byte array" (R ‖ s)
+    pub fn to_bytes(&self) -> (r: [u8; 64])
+        ensures r@ == self@,
+    { self.bytes }
 }
 
 impl FromSpecImpl<[u8; 64]> for Signature {
@@ -203,6 +310,27 @@ impl VerifyingKey {
     #[verifier::external_body]
     pub fn verify(&self, msg: &[u8], signature: &Signature) -> (r: core::result::Result<(), SignatureError>)
         ensures r.is_ok() <==> sig_ok(self@, msg@, signature@),
+    { unimplemented!() }
+
+    /// ed25519-dalek-2.2.0 src/verifying.rs `verify_strict`: the same
+    /// `expected_R == signature.R` test as `verify` (raw_verify) after two more
+    /// rejections (small-order R, small-order key).  So Ok implies that `verify`
+    /// answers Ok; the converse is not claimed.  Total (Ok or Err).
+    #[verifier::external_body]
+    pub fn verify_strict(&self, msg: &[u8], signature: &Signature) -> (r: core::result::Result<(), SignatureError>)
+        ensures r.is_ok() ==> sig_ok(self@, msg@, signature@),
+    { unimplemented!() }
+
+    /// `to_bytes` / `as_bytes`: the compressed point the key was built from
+    /// (`from_bytes` stores `CompressedEdwardsY(*bytes)` unchanged)
+    #[verifier::external_body]
+    pub fn to_bytes(&self) -> (r: [u8; 32])
+        ensures r@ == self@,
+    { unimplemented!() }
+
+    #[verifier::external_body]
+    pub fn as_bytes(&self) -> (r: &[u8; 32])
+        ensures r@ == self@,
     { unimplemented!() }
 }
 
